@@ -411,6 +411,10 @@ func report(t *testing.T, sig string, c map[string]interface{}, msg string) {
 	c["signature"] = sig
 	c["problem"] = msg
 	vlib.Rec.Violation(c)
+	if t == nil {
+		vlib.FailLater(fmt.Sprintf("C18 [%s]: %s", sig, msg))
+		return
+	}
 	t.Errorf("C18 [%s] %v: %s", sig, c, msg)
 }
 
@@ -668,6 +672,44 @@ func judgeUpstream(uc upstreamCase, want string, wantTLS, documented bool) (msg,
 	}
 	if !documented && want == "" && len(seen) > 0 {
 		return fmt.Sprintf("unknown scheme in %q was not rejected: the client sent %s", url, obs), obs
+	}
+	// the address means the same on every connection attempt of the upstream built from it (the client connects again
+	// after a failed attempt or a lost session)
+	if documented && pipeR == nil && len(seen) > 0 {
+		rec.mu.Lock()
+		rec.first = map[string][]byte{}
+		rec.mu.Unlock()
+		done2 := make(chan struct{})
+		go func() {
+			defer close(done2)
+			defer func() { recover() }()
+			_ = up.Connect(&cert.ClientConfig{InsecureSkipVerify: true}, false)
+		}()
+		select {
+		case <-done2:
+		case <-time.After(6 * time.Second):
+		}
+		time.Sleep(50 * time.Millisecond)
+		rec.mu.Lock()
+		var seen2 []string
+		for _, k := range []string{"tcp", "unix", "udp", "stdio"} {
+			if c := classify(k, rec.first[k]); c != "" {
+				seen2 = append(seen2, c)
+			}
+		}
+		rec.mu.Unlock()
+		obs2 := strings.Join(seen2, ",")
+		if want == "dns-udp" && (obs2 == "dns-tcp" || obs2 == "dns-tcp,dns-udp") {
+			obs2 = "dns-udp"
+		}
+		for _, c := range seen2 {
+			if wantTLS && (strings.Contains(c, "plain") || strings.Contains(c, "websocket-upgrade") || c == "kcp") {
+				return fmt.Sprintf("upstream %q asks for an encrypted transport but speaks in clear on its second connection attempt: %s (first attempt: %s)", url, obs2, obs), obs
+			}
+		}
+		if obs2 != "" && obs2 != obs {
+			return fmt.Sprintf("upstream %q gives %s on its first connection attempt and %s on its second", url, obs, obs2), obs
+		}
 	}
 	return "", obs
 }
@@ -972,4 +1014,47 @@ func TestNeighbourStrings(t *testing.T) {
 			rt.Fatalf("C18 [%s] address %q: parser panicked: %s", sig, address, p.Panic)
 		}
 	})
+}
+
+// ---- the YAML form's decoding itself -------------------------------------------------------------------------------
+
+var yamlNoted int
+
+// noteYAMLNondeterminism records that repeated parses of one text disagreed.
+func noteYAMLNondeterminism(text string, fingerprints []string) {
+	yamlNoted++
+	c := map[string]interface{}{"position": "yaml-decoding", "config_text": text, "results_of_three_parses": fingerprints}
+	report(nil, "yaml-decode-nondeterministic", c, "three parses of the same configuration text gave different configurations")
+}
+
+// TestYAMLDecodeIsAFunctionOfTheText: whatever form a configuration is given in, it has one meaning. A server
+// configuration with an inline certificate (a YAML literal block, as the documentation shows it) is parsed by the real
+// option parser many times; every parse must give the same servers and channels.
+func TestYAMLDecodeIsAFunctionOfTheText(t *testing.T) {
+	n := vlib.Pick(30000, 150000)
+	address, _, _ := serverAddress("tcp")
+	text, _ := serverConfigText("yaml", address)
+	first := ""
+	deviating := 0
+	var sample []string
+	for i := 0; i < n; i++ {
+		p := parseYAMLOnce(text, "server")
+		fp := p.fingerprint()
+		if first == "" {
+			first = fp
+		} else if fp != first {
+			deviating++
+			if len(sample) < 3 {
+				sample = append(sample, fp)
+			}
+		}
+	}
+	d := map[string]interface{}{"position": "yaml-decoding", "parses": n, "deviating": deviating}
+	vlib.Rec.Case(fmt.Sprintf("yaml-decode %d", n), true, []string{"position:yaml-decoding", fmt.Sprintf("deviating:%v", deviating > 0)}, func() interface{} { return d })
+	if deviating > 0 {
+		d["config_text"] = text
+		d["usual_result"] = first
+		d["deviating_results"] = sample
+		report(t, "yaml-decode-nondeterministic", d, fmt.Sprintf("%d of %d parses of the same server configuration text (inline certificate as a literal block) gave a different configuration, e.g. %s instead of %s", deviating, n, sample[0], first))
+	}
 }
